@@ -77,6 +77,9 @@ class KillOnPickle(Exception):
         return (KillOnPickle, (self.sig,))
 
 
+UNPICKLABLE = [['ret', 'unpicklable'], ['raise', 'unpicklable']]
+
+
 def _exc_class(name):
     if name == 'CustomError':
         return CustomError
@@ -105,13 +108,17 @@ def gen_case(rng: random.Random, tier: str, kind=None):
         outcome = ['raise', rng.choice(list(EXCS))]
     else:
         outcome = ['exit', rng.choice(list(EXITS))]
+    if oc != 'exit' and rng.random() < 0.12:
+        outcome = [oc, 'unpicklable']       # a lambda returned / an instance of a local exception class raised
     kill = None
     if kind == 'process' and rng.random() < 0.55:
         phase = rng.choice(['before', 'during', 'during', 'after', 'between'])
         if phase == 'between':
             outcome = ['raise', 'killonpickle']
+        if phase == 'after' and outcome[1] == 'unpicklable':
+            phase = 'during'        # such a child never gets as far as "both messages sent"
         kill = dict(phase=phase, sig=rng.choice(SIGS + [9]))
-    if kind == 'thread' and outcome[0] == 'raise' and EXCS[outcome[1]][0] in ('KeyboardInterrupt',):
+    if kind == 'thread' and outcome[0] == 'raise' and outcome[1] != 'unpicklable' and EXCS[outcome[1]][0] in ('KeyboardInterrupt',):
         outcome = ['raise', 0]
     order = list(ACCESSORS)
     rng.shuffle(order)
@@ -149,6 +156,20 @@ def boundary_cases():
             order = [first] + [a for a in ACCESSORS if a != first]
             cases.append(dict(kind='thread', outcome=oc, kill=None, order=order, early=False, seed=k))
             k += 1
+    # outcomes that cannot cross the pipe: the child fails in send() and ends by itself with status 1 before
+    # both messages are sent (for a Thread they are ordinary outcomes)
+    for oc in UNPICKLABLE:
+        for kind in ('process', 'thread'):
+            for first in ACCESSORS:
+                order = [first] + [a for a in ACCESSORS if a != first]
+                cases.append(dict(kind=kind, outcome=oc, kill=None, order=order, early=False,
+                                  slow_reap=(kind == 'process' and k % 2 == 0), seed=k))
+                k += 1
+        for phase in ('before', 'during'):
+            for sig in (9, 15):
+                order = list(ACCESSORS[(k % 7):]) + list(ACCESSORS[:(k % 7)])
+                cases.append(dict(kind='process', outcome=oc, kill=dict(phase=phase, sig=sig), order=order, early=False, seed=k))
+                k += 1
     return cases
 
 
@@ -197,7 +218,7 @@ def resolve_phase(case, res):
     for ph in (['none'] if res.get('kill_missed') else ['none', 'before', 'during', 'between', 'after']):
         c = dict(case, kill=None if ph == 'none' else dict(case['kill'], phase=ph))
         exp = expected_answers(c)
-        if all(exp[a] == r for a, r in ans):
+        if all(answer_ok(exp[a], r) for a, r in ans):
             return ph
     return None
 
@@ -242,7 +263,12 @@ def expected_future(case):
     """-> ('ok', value_tag) | ('err', err_tag): how the worker's future must be resolved"""
     oc = case['outcome']
     k = case.get('kill')
-    if oc[0] == 'ret':
+    if oc[1] == 'unpicklable' and case['kind'] == 'process':
+        # the outcome cannot be sent: the child ends by itself (status 1) without both messages; the property
+        # demands an error from join/result/exception and completed wait/as_completed; which error is not
+        # prescribed ('*'; the repaired tree reports OSError(-1, ...))
+        own = ('err', '*')
+    elif oc[0] == 'ret':
         own = ('ok', 'none' if oc[1] is None else f'v{oc[1]}')
     elif oc[0] == 'raise':
         own = ('err', f'child:{oc[1]}')
@@ -278,13 +304,22 @@ def expected_answers(case):
         exp['exitcode'] = f'ret:{-k["sig"]}'
     else:
         oc = case['outcome']
-        if oc[0] == 'ret':
+        if oc[1] == 'unpicklable':
+            exp['exitcode'] = 'ret:1'
+        elif oc[0] == 'ret':
             exp['exitcode'] = 'ret:0'
         elif oc[0] == 'raise':
             exp['exitcode'] = 'ret:1'
         else:
             exp['exitcode'] = f'ret:{exit_status(EXITS[oc[1]])}'
     return exp
+
+
+def answer_ok(want, got):
+    """`want` may end in `*`: any error object (but not a TimeoutError: no accessor was given a timeout)"""
+    if want.endswith(':*'):
+        return got.startswith(want[:-1]) and got != want[:-1] + 'none' and 'TimeoutError' not in got
+    return want == got
 
 
 def monitor(case, res):
@@ -312,7 +347,7 @@ def monitor(case, res):
                                    f'answers so far {ans}'))
         elif r == 'SKIPPED':
             continue
-        elif r != exp[a]:
+        elif not answer_ok(exp[a], r):
             mon.append(dict(prop='C12', rule='answer', detail=f'{a}() gave {r}, the property demands {exp[a]}; '
                                                                f'case class {case_class(case)}; all answers {ans}'))
     for a, r in res.get('early_answers') or []:
@@ -327,6 +362,12 @@ def monitor(case, res):
     if 'result' in d and 'exception' in d:
         if d['result'].startswith('raise:') != (d['exception'] != 'ret:none'):
             mon.append(dict(prop='C12', rule='disagree', detail=f'result {d["result"]} vs exception {d["exception"]}'))
+    # the same error object everywhere
+    tags = {a: d[a].split(':', 1)[1] for a in ('join', 'result') if a in d and d[a].startswith('raise:')}
+    if 'exception' in d and d['exception'].startswith('ret:') and d['exception'] != 'ret:none':
+        tags['exception'] = d['exception'].split(':', 1)[1]
+    if len(set(tags.values())) > 1:
+        mon.append(dict(prop='C12', rule='disagree', detail=f'different errors from different accessors: {tags}'))
     if res.get('tb_problems'):
         mon.append(dict(prop='C12', rule='traceback', detail='; '.join(res['tb_problems'])[:600]))
     return mon
@@ -422,12 +463,18 @@ def recheck_hangs(chk, scen_name, results, classof):
     return results
 
 
-def validate_parallel(chk, model, scen, results, nproc=8, cost=None):
+def validate_parallel(chk, model, scen, results, nproc=8, cost=None, skip=None):
     """`Check.validate` with the driver run as `nproc` processes over cost-balanced chunks (the replay of a
-    long history through the model is the slow part; same bookkeeping as core.Check.validate)."""
+    long history through the model is the slow part; same bookkeeping as core.Check.validate).  Cases for
+    which `skip(case)` holds are not replayed (said in the evidence notes): the monitor alone judges them."""
     import core
     from concurrent.futures import ThreadPoolExecutor
-    idx = sorted(range(len(results)), key=(lambda k: -cost(results[k][0])) if cost else None)
+    skipped = [k for k in range(len(results)) if skip and skip(results[k][0])]
+    if skipped:
+        chk.notes.append(f'{len(skipped)} cases were not replayed through the model driver (history too long for the quadratic '
+                         f'replay); the monitor evaluated them')
+    idx = sorted((k for k in range(len(results)) if k not in set(skipped)),
+                 key=(lambda k: -cost(results[k][0])) if cost else None)
     chunks = [idx[i::nproc] for i in range(nproc) if idx[i::nproc]]
 
     def run(ch):
@@ -445,6 +492,8 @@ def validate_parallel(chk, model, scen, results, nproc=8, cost=None):
                     verdict[w[1]] = l
     nval = 0
     for k, (case, res) in enumerate(results):
+        if k in skipped:
+            continue
         v = verdict.get(str(k))
         if v is None:
             chk.corr_breaks.append(dict(model=model, case=case, verdict='no answer from the driver', events=res.get('events')))
@@ -453,7 +502,7 @@ def validate_parallel(chk, model, scen, results, nproc=8, cost=None):
         else:
             chk.corr_breaks.append(dict(model=model, case=case, verdict=v, events=res.get('events'), monitors=res.get('monitors')))
     chk.cov['traces_validated_against_impl'] += nval
-    return nval, len(results)
+    return nval, len(results) - len(skipped)
 
 
 def run_case(case):
@@ -476,7 +525,9 @@ def run_case(case):
 
 def model_lines(cid, case, res):
     oc = case['outcome']
-    if oc[0] == 'ret':
+    if oc[1] == 'unpicklable':
+        o = f'{oc[0]}:unpicklable'
+    elif oc[0] == 'ret':
         o = 'ret:none' if oc[1] is None else f'ret:{oc[1]}'
     elif oc[0] == 'raise':
         o = f'raise:{99 if oc[1] == "killonpickle" else oc[1]}'
@@ -504,6 +555,10 @@ def _model_form(case, r):
     """canonical answer -> the model's vocabulary (exception `child:<id>` -> `child:<nat>`, sysexit:<id> -> code)"""
     oc = case['outcome']
     for pre in ('raise:', 'ret:'):
+        if r == pre + 'child:unpicklable':
+            return pre + 'child:97'
+        if r == pre + 'vunpicklable':
+            return pre + '1000'
         if r.startswith(pre + 'child:'):
             return pre + 'child:' + ('99' if r.endswith('killonpickle') else r.split(':')[-1])
         if r.startswith(pre + 'sysexit:'):
@@ -520,6 +575,13 @@ def _model_form(case, r):
 
 def _raise_here(cls, args):
     raise cls(*args)
+
+
+def _raise_local():
+    class LocalError(Exception):        # a local class: its instances cannot be pickled
+        pass
+
+    raise LocalError('boom')
 
 
 def target(spec, ready, after, phase, flood=0, dur=0.0, logs=0):
@@ -552,6 +614,10 @@ def target(spec, ready, after, phase, flood=0, dur=0.0, logs=0):
             time.sleep(600)
         threading.Thread(target=keeper, daemon=False).start()
     kind, x = spec
+    if x == 'unpicklable':
+        if kind == 'ret':
+            return lambda v: v + 1
+        _raise_local()
     if kind == 'ret':
         return None if x is None else VALUES[x]
     if kind == 'raise':
@@ -576,6 +642,8 @@ def _canon_value(case, v):
     oc = case['outcome']
     if v is None:
         return 'none'
+    if oc == ['ret', 'unpicklable']:
+        return 'vunpicklable' if callable(v) and v(1) == 2 else 'other-value:' + repr(v)[:80]
     if oc[0] == 'ret' and oc[1] is not None and v == VALUES[oc[1]] and type(v) is type(VALUES[oc[1]]):
         return f'v{oc[1]}'
     return 'other-value:' + repr(v)[:80]
@@ -586,6 +654,18 @@ def _canon_exc(case, e, tbp, where):
     from mpservice.multiprocessing.remote_exception import get_remote_traceback, is_remote_exception
     oc = case['outcome']
     cls = type(e).__name__
+    if oc[1] == 'unpicklable':
+        if isinstance(e, OSError) and case.get('kill') and e.errno == case['kill']['sig']:
+            return f'oserror:{e.errno}'
+        if case['kind'] == 'thread' and oc[0] == 'raise' and cls == 'LocalError' and e.args == ('boom',):
+            c = e.__cause__
+            tb = str(c.args[0]) if c is not None and c.args else ''
+            if '_raise_local' not in tb or 'Traceback' not in tb:
+                tbp.append(f'{where}: thread traceback text lacks the raising frame: {tb[-200:]!r}')
+            return 'child:unpicklable'
+        if case['kind'] == 'process' and isinstance(e, OSError) and e.errno == -1:
+            return 'oserror:-1'         # what the repaired tree reports for a child that ended by itself with status 1
+        return f'other:{cls}:{e.args!r}'[:200]
     if oc[0] == 'raise' and oc[1] != 'killonpickle':
         name, args = EXCS[oc[1]]
         if cls == name and list(e.args) == list(args):
